@@ -226,8 +226,16 @@ type parCall struct {
 	Msg  wsReq `json:"msg"`
 }
 
+type reuseCall struct {
+	Node int   `json:"node"`
+	Ack  bool  `json:"ack"` // to the acknowledge-only endpoint MsgN
+	Msg  wsReq `json:"msg"`
+}
+
 type parStep struct {
 	Send []parCall `json:"send,omitempty"`
+	// SendProtobuf calls one after the other that reuse ONE reply variable
+	Reuse []reuseCall `json:"reuse,omitempty"`
 	// a parallel call
 	Call    bool    `json:"call,omitempty"`
 	Opts    parOpts `json:"opts"`
@@ -256,6 +264,8 @@ type retObs struct {
 
 type stepOut struct {
 	Send []obsReply `json:"send,omitempty"`
+	// per call of a reuse step: the error, or what the shared reply variable holds afterwards
+	Reuse []obsReply `json:"reuse,omitempty"`
 	// parallel call
 	Returned bool     `json:"returned,omitempty"`
 	Result   string   `json:"result,omitempty"` // node error crash
@@ -392,6 +402,45 @@ func runPar(in *input, emit func(interface{}), started *bool) (discard bool, hun
 
 	*started = true
 	for _, st := range p.Steps {
+		if len(st.Reuse) > 0 {
+			out := make([]obsReply, len(st.Reuse))
+			fin := make(chan struct{})
+			go func() {
+				defer close(fin)
+				ret := &Reply{} // one variable for all the calls
+				for i, c := range st.Reuse {
+					func() {
+						defer func() {
+							if r := recover(); r != nil {
+								out[i] = obsReply{Class: "EOther", Raw: "client panic: " + short(fmt.Sprint(r))}
+							}
+						}()
+						if c.Node < 0 || c.Node >= len(sis) {
+							out[i] = obsReply{Class: "EOther", Raw: "no such node"}
+							return
+						}
+						var msg interface{} = msgQ(&c.Msg)
+						if c.Ack {
+							q := msgQ(&c.Msg)
+							msg = &MsgN{q.S, q.I, q.B, q.D}
+						}
+						if err := cl.SendProtobuf(sis[c.Node], msg, ret); err != nil {
+							out[i] = classifyWS(nil, err)
+						} else {
+							out[i] = okReply(ret)
+						}
+					}()
+				}
+			}()
+			select {
+			case <-fin:
+			case <-time.After(roundDeadline):
+				emit(stepOut{Raw: "sends did not end"})
+				return false, true
+			}
+			emit(stepOut{Reuse: out})
+			continue
+		}
 		if !st.Call {
 			out := make([]obsReply, len(st.Send))
 			var wg sync.WaitGroup
@@ -678,9 +727,25 @@ func parCase(in *input, lines []json.RawMessage, died string) lib.Case {
 	}
 	ss := make([]string, len(steps))
 	os := make([]string, len(steps))
-	scripted, free, sends, quitrace := false, false, false, false
+	scripted, free, sends, quitrace, reuse := false, false, false, false, false
 	for i, st := range steps {
 		o := obs[i]
+		if len(st.Reuse) > 0 {
+			reuse = true
+			cs := make([]string, len(st.Reuse))
+			rs := make([]string, len(st.Reuse))
+			for j, c := range st.Reuse {
+				cs[j] = fmt.Sprintf("(%d, %s, %s)", c.Node, lib.Bool(c.Ack), coqPMsg(&c.Msg))
+				if j < len(o.Reuse) {
+					rs[j] = coqReply(o.Reuse[j])
+				} else {
+					rs[j] = `(RErr ETransport "")`
+				}
+			}
+			ss[i] = "(StReuse " + lib.List(cs) + ")"
+			os[i] = "(OReuse " + lib.List(rs) + ")"
+			continue
+		}
 		if !st.Call {
 			sends = true
 			cs := make([]string, len(st.Send))
@@ -730,6 +795,9 @@ func parCase(in *input, lines []json.RawMessage, died string) lib.Case {
 	class := "par"
 	if quitrace {
 		class += "-quitrace"
+	}
+	if reuse {
+		class += "-reuse"
 	}
 	if sends {
 		class += "-send"
@@ -878,6 +946,18 @@ func parScenario(rng *rand.Rand, n int) input {
 	steps := 3 + rng.Intn(4)
 	for s := 0; s < steps; s++ {
 		msg := wsReq{S: sp(fmt.Sprintf("q%d-%d", n, s)), I: ip(int64(rng.Intn(100))), B: bp(rng.Intn(2) == 0), D: sp(dPool[rng.Intn(len(dPool))])}
+		if rng.Intn(5) == 0 {
+			// calls one after the other that reuse one reply variable; some go to the
+			// acknowledge-only endpoint, whose reply is encoded to zero bytes
+			st := parStep{}
+			for c, m := 0, 2+rng.Intn(5); c < m; c++ {
+				mm := msg
+				mm.S = sp(fmt.Sprintf("%s-u%d", *msg.S, c))
+				st.Reuse = append(st.Reuse, reuseCall{Node: rng.Intn(k), Ack: c > 0 && rng.Intn(2) == 0, Msg: mm})
+			}
+			p.Steps = append(p.Steps, st)
+			continue
+		}
 		if rng.Intn(3) == 0 {
 			// single requests, one after the other or together, over the connections the client keeps
 			st := parStep{}
@@ -918,6 +998,23 @@ func quitRaceWitness() input {
 		{Call: true, Opts: parOpts{NoShuffle: true, Quit: true}, Decoder: true, WantRet: true, Msg: msg, Prio: []int{1, 0, 2}, Hold: &one},
 		{Send: []parCall{{1, msg}}},
 	}}}
+}
+
+// SendProtobuf with one reply variable: a reply with content, then a reply of zero bytes
+// (acknowledge-only endpoint): the variable must hold the zero reply, not the earlier one
+func reuseWitness() input {
+	m := func(s string) wsReq { return wsReq{S: sp(s), I: ip(7), B: bp(true), D: sp("0102")} }
+	return input{Kind: "witness", Par: &parInput{Nodes: []string{"ok", "ok"}, Keep: true, Steps: []parStep{
+		{Reuse: []reuseCall{{0, false, m("alice")}, {1, true, m("bob")}, {1, false, m("carol")}, {0, true, m("dave")}, {0, true, m("eve")}}},
+	}}}
+}
+
+// a handler that returns (nil, nil) answers with zero bytes, whatever the request carries
+func ackWitness() input {
+	return input{Kind: "witness", Clients: []client{{Keep: true, Svc: true}, {Keep: false, Svc: true}}, Rounds: [][]req{
+		{{Client: 0, Ws: &wsReq{Path: 3, S: sp("request content"), I: ip(7), B: bp(true), D: sp("deadbeef")}}},
+		{{Client: 1, Ws: &wsReq{Path: 3, S: sp("x"), I: ip(1)}}, {Client: 0, Ws: &wsReq{Path: 1, S: sp("a"), I: ip(1), B: bp(true), D: sp("")}}},
+	}}
 }
 
 func parWitness() input {
